@@ -10,6 +10,7 @@ import (
 	"path/filepath"
 	"sort"
 	"strings"
+	"time"
 )
 
 // Disagreement between the implementation and the Lean model on one operation.
@@ -141,4 +142,41 @@ func Shrink(ops []string, fails func([]string) bool, budget int) []string {
 		}
 	}
 	return cur
+}
+
+// CopyDirStable copies a data directory of a node that is still open. LevelDB compacts in the background even when
+// the application is idle: files may appear or vanish while `cp -r` walks the tree, which makes cp fail or — worse —
+// yields a copy that never existed on disk at any instant. The copy is therefore repeated until the source tree's
+// listing (names, sizes, modification times) is the same before and after the copy.
+func CopyDirStable(src, dst string) error {
+	listing := func() string {
+		var sb strings.Builder
+		_ = filepath.Walk(src, func(p string, fi os.FileInfo, err error) error {
+			if err != nil || fi == nil {
+				return nil
+			}
+			if !fi.IsDir() {
+				fmt.Fprintf(&sb, "%s %d %d\n", p, fi.Size(), fi.ModTime().UnixNano())
+			}
+			return nil
+		})
+		return sb.String()
+	}
+	var last error
+	for try := 0; try < 40; try++ {
+		_ = os.RemoveAll(dst)
+		before := listing()
+		out, err := exec.Command("cp", "-r", src, dst).CombinedOutput()
+		after := listing()
+		if err == nil && before == after {
+			return nil
+		}
+		if err != nil {
+			last = fmt.Errorf("cp: %v %s", err, out)
+		} else {
+			last = fmt.Errorf("source directory kept changing during the copy")
+		}
+		time.Sleep(time.Duration(20*(try+1)) * time.Millisecond)
+	}
+	return last
 }
